@@ -181,8 +181,8 @@ let handle_h id fs =
       (Stdlib.String.concat ";" parts ^ "|T=" ^ tr, if d = [] then "-" else Stdlib.String.concat "," d)
     | Res.Err c -> ("open-" ^ cls_name c, "all") in
   (* mdiff: the probes at which the faithful model itself deviates from the specification *)
-  (* rr: do the side conditions of read_render_partial hold (no hybrid section, chain_check)? *)
-  let rr = ReadRender.chain_check b.Seq.b_chain in
+  (* rr: do the hypotheses of Prop_C04.read_render hold of this history and file? *)
+  let rr = ReadRender.read_render_hyp h b in
   Printf.printf "Y %s wf=%s guard=%s nsec=%d trip=%s hidden=%s mdiff=%s rr=%s\n" id
     (string_of_bool (Seq.hyp_wf b)) (string_of_bool (Seq.hyp_guard b)) (Stdlib.List.length b.Seq.b_chain)
     (if trips = "" then "-" else trips) (string_of_bool (not (Seq.hyp_no_hidden b))) mdiff (string_of_bool rr);
